@@ -232,6 +232,47 @@ theorem C07_semver_type_repaired :
     tyEq semverOneX semverOneN = true ∧ tyKey semverOneX = tyKey semverOneN ∧ tyKey semverOneX ≠ tyKey semverTwoX ∧
     tyKey (.semverT [0x2a] matchAllR) = [1, 0x74] ++ ekStr [0x53, 0x65, 0x6d, 0x56, 0x65, 0x72] := by decide
 
+/-- Hash[K, V, size], Like[T, 'nav'] and Runtime['rt', 'name', Regexp[/p/]] are inside `tyEq` / `tyKey` too.  Non-vacuity: the
+    default Hash, the empty Hash type `Hash[0, 0]` (Unit, Unit, [0,0]: its parameters are the two integers), member order inside -/
+example : TyWF (.hash (.var [.str, .undef]) (.int 1 2) 0 3) = true ∧
+    tyEq (.hash (.var [.str, .undef]) (.int 1 2) 0 3) (.hash (.var [.undef, .str]) (.int 1 2) 0 3) = true := by decide
+example : tyKey (.hash (.var [.str, .undef]) (.int 1 2) 0 3) = tyKey (.hash (.var [.undef, .str]) (.int 1 2) 0 3) :=
+  (C07_type_key_iff _ _ (by decide) (by decide)).mpr (by decide)
+example : tyKey (.hash .any .any 0 maxInt) ≠ tyKey (.hash (.nul .unit) (.nul .unit) 0 0) ∧
+    tyKey (.hash (.nul .unit) (.nul .unit) 0 0) ≠ tyKey (.hash .any (.nul .unit) 0 0) ∧
+    tyKey (.like .str [0x61]) ≠ tyKey (.like .str [0x62]) ∧ tyKey (.like .any []) ≠ tyKey (.like .any [0x61]) := by decide
+
+/-- the former witnesses of the findings C07-runtime-empty-name-key and C07-runtime-equals-nil-pattern (/repo fix 1cd0d3f):
+    `Runtime['', 'x']`, `Runtime['', 'y']` and `Runtime` are pairwise not Equal and now have three keys;
+    a Runtime with a pattern against the same without one is not Equal, in both orders, without a fault -/
+theorem C07_runtime_repaired :
+    tyEq (.runtime [] [0x78] none) (.runtime [] [0x79] none) = false ∧ tyEq (.runtime [] [0x78] none) (.runtime [] [] none) = false ∧
+    tyKey (.runtime [] [0x78] none) ≠ tyKey (.runtime [] [0x79] none) ∧ tyKey (.runtime [] [0x78] none) ≠ tyKey (.runtime [] [] none) ∧
+    tyKey (.runtime [] [0x79] none) ≠ tyKey (.runtime [] [] none) ∧
+    tyEq (.runtime [0x72] [0x78] (some [0x79])) (.runtime [0x72] [0x78] none) = false ∧
+    tyEq (.runtime [0x72] [0x78] none) (.runtime [0x72] [0x78] (some [0x79])) = false ∧
+    tyKey (.runtime [0x72] [0x78] (some [0x79])) ≠ tyKey (.runtime [0x72] [0x78] none) ∧
+    tyKey (.runtime [0x72] [] (some [0x78])) ≠ tyKey (.runtime [0x72] [0x78] none) := by decide
+
+/-- known finding C07-callable-all-equal, now on the model: `CallableType.Equals` is a bare type assertion, so `Callable`
+    and `Callable[String]` (any two Callable types) are Equal while their keys differ; `Unique` keeps both and a Hash keyed by one
+    does not find the other.  `TyWF` therefore admits the default Callable only: `C07_type_key_iff` does not speak about a
+    Callable with parameters (the equivalence laws hold for them trivially: `tyEq` is constantly true there) -/
+theorem C07_callable_all_equal :
+    tyEq (.callable none) (.callable (some [.str])) = true ∧ tyEq (.callable (some [.str])) (.callable none) = true ∧
+    tyEq (.callable (some [.str])) (.callable (some [.int 1 2])) = true ∧
+    tyKey (.callable none) ≠ tyKey (.callable (some [.str])) ∧ tyKey (.callable (some [.str])) ≠ tyKey (.callable (some [.int 1 2])) ∧
+    (unique [.typ (.callable none), .typ (.callable (some [.str]))]).length = 2 ∧
+    (hashGet [(.typ (.callable none), .int 1)] (.typ (.callable (some [.str])))).isSome = false ∧
+    TyWF (.callable none) = true ∧ TyWF (.callable (some [.str])) = false := by decide
+
+/-- the full statement for the Callable family (what `C07_type_key_iff` would say if `TyWF` admitted them) … -/
+def C07_callable_key_iff_full : Prop :=
+  ∀ ts us : Option (List Ty), tyKey (.callable ts) = tyKey (.callable us) ↔ tyEq (.callable ts) (.callable us) = true
+/-- … is false of the code as it is -/
+theorem C07_not_callable_key_iff_full : ¬ C07_callable_key_iff_full := fun h =>
+  absurd ((h none (some [.str])).mpr (by decide)) (by decide)
+
 /-- every type inside a comparable value is well-formed -/
 theorem typesIn_wf : ∀ (n : Nat) (x : Val), sizeOf x ≤ n → cmp x = true → ∀ a ∈ typesIn x, TyWF a = true := by
   intro n
